@@ -11,9 +11,11 @@
 (*                        is the moment just before getReadyTransport      *)
 (*  done id               the Done callback of pick result id ran          *)
 (*  pick_ret r ok code msg tr id   after pw.pick returned                  *)
-(*  upd_start g / swapped g / upd_end g   updatePicker of generation g:    *)
-(*                        before the call / between Swap and close (logged *)
-(*                        after the Swap) / after the call and quiescence  *)
+(*  upd_start g / swapped g / upd_end g   the g-th publication (call of   *)
+(*                        updatePicker): before the call / between Swap    *)
+(*                        and close (logged after the Swap; g = number of  *)
+(*                        the installed generation) / after the call has   *)
+(*                        returned and quiescence was reached              *)
 (*  sc_nr_end sc / sc_r_begin sc  the subchannel became not READY (logged  *)
 (*                        after the change) / is about to become READY     *)
 (*                        (logged before the change): between the two it   *)
@@ -24,8 +26,8 @@
 (*                        pick (not at a hook) / has left the select       *)
 (***************************************************************************)
 EXTENDS TraceIO, FiniteSets
-VARIABLES l, swapped, updating, rs, cnt, nr, parked, cset
-vars == <<l, swapped, updating, rs, cnt, nr, parked, cset>>
+VARIABLES l, swapped, updating, rs, cnt, nr, parked, cset, pre
+vars == <<l, swapped, updating, rs, cnt, nr, parked, cset, pre>>
 
 Restricted == {3, 5, 6, 9, 10, 11, 15}      \* gRFC A54: become INTERNAL (13)
 Empty == [x \in {} |-> 0]
@@ -36,18 +38,18 @@ NR(sc) == IF sc \in DOMAIN nr THEN nr[sc] ELSE FALSE
 Known(r) == r \in DOMAIN rs
 
 Init == /\ l = 1 /\ swapped = 0 /\ updating = FALSE /\ rs = Empty /\ cnt = Empty /\ nr = Empty
-        /\ parked = {} /\ cset = {} /\ InitRegs
+        /\ parked = {} /\ cset = {} /\ pre = {} /\ InitRegs
 Ev == Trace[l]
 
 Reset == /\ Ev.ev = "reset"
          /\ swapped' = 0 /\ updating' = FALSE /\ rs' = Empty /\ cnt' = Empty /\ nr' = Empty
-         /\ parked' = {} /\ cset' = {}
+         /\ parked' = {} /\ cset' = {} /\ pre' = {}
 
 PickStart ==
     /\ Ev.ev = "pick_start"
     /\ rs' = Upd(rs, Ev.r, [floor |-> swapped, last |-> 0 - 1, kind |-> "none", sc |-> "", code |-> 0, msg |-> "",
                             pend |-> 0, nrchk |-> FALSE, ff |-> Ev.ff, active |-> TRUE])
-    /\ UNCHANGED <<swapped, updating, cnt, nr, parked, cset>>
+    /\ UNCHANGED <<swapped, updating, cnt, nr, parked, cset, pre>>
 
 IsSc(k) == k \in {"ok", "notready"}
 PickerCall ==
@@ -62,24 +64,24 @@ PickerCall ==
        /\ Mark(R.kind = "status" \/ (R.kind = "err" /\ R.ff), "I_BlockNotFail", l)
        \* the previous (not-ready) result's Done ran exactly once before the re-pick
        /\ Mark(R.pend # 0 /\ Cnt(R.pend) # 1, "I_DoneOnce", l)
-    /\ UNCHANGED <<swapped, updating, cnt, nr, parked, cset>>
+    /\ UNCHANGED <<swapped, updating, cnt, nr, parked, cset, pre>>
 
 At == /\ Ev.ev = "at"
       /\ rs' = IF Ev.p = "ready" /\ Known(Ev.t)
                  THEN Upd(rs, Ev.t, [rs[Ev.t] EXCEPT !.nrchk = NR(rs[Ev.t].sc)])
                  ELSE rs
-      /\ UNCHANGED <<swapped, updating, cnt, nr, parked, cset>>
+      /\ UNCHANGED <<swapped, updating, cnt, nr, parked, cset, pre>>
 
 ScNrEnd == /\ Ev.ev = "sc_nr_end" /\ nr' = Upd(nr, Ev.sc, TRUE)
-           /\ UNCHANGED <<swapped, updating, rs, cnt, parked, cset>>
+           /\ UNCHANGED <<swapped, updating, rs, cnt, parked, cset, pre>>
 ScRBegin == /\ Ev.ev = "sc_r_begin" /\ nr' = Upd(nr, Ev.sc, FALSE)
             /\ rs' = [r \in DOMAIN rs |-> IF rs[r].sc = Ev.sc THEN [rs[r] EXCEPT !.nrchk = FALSE] ELSE rs[r]]
-            /\ UNCHANGED <<swapped, updating, cnt, parked, cset>>
+            /\ UNCHANGED <<swapped, updating, cnt, parked, cset, pre>>
 
 Done == /\ Ev.ev = "done" /\ cnt' = Upd(cnt, Ev.id, Cnt(Ev.id) + 1)
         /\ Mark(Cnt(Ev.id) + 1 > 1, "I_DoneOnce", l)
         /\ Drift(Ev.err \/ Ev.sent \/ Ev.recv, "not-ready Done called with a non-empty DoneInfo", l)
-        /\ UNCHANGED <<swapped, updating, rs, nr, parked, cset>>
+        /\ UNCHANGED <<swapped, updating, rs, nr, parked, cset, pre>>
 
 TrOf(sc) == IF sc = "A" THEN "tA" ELSE IF sc = "B" THEN "tB" ELSE "none"
 PickRet ==
@@ -99,38 +101,41 @@ PickRet ==
                            Mark(Ev.code # 14 \/ Ev.msg # R.msg, "I_BlockNotFail", l)
                       [] OTHER ->   \* the last result (or the absence of a picker) blocks: only the context may end the pick
                            Mark(~(Ev.code = 1 /\ Ev.r \in cset), "I_BlockNotFail", l)
-    /\ parked' = parked \ {Ev.r}
+    /\ parked' = parked \ {Ev.r} /\ pre' = pre \ {Ev.r}
     /\ UNCHANGED <<swapped, updating, cnt, nr, cset>>
 
 Cancel == /\ Ev.ev = "cancel" /\ cset' = cset \cup {Ev.r}
-          /\ UNCHANGED <<swapped, updating, rs, cnt, nr, parked>>
+          /\ UNCHANGED <<swapped, updating, rs, cnt, nr, parked, pre>>
 \* a parked pick is woken by context cancellation
 CancelDone == /\ Ev.ev = "cancel_done" /\ Mark(Ev.r \in parked, "I_Wake", l)
-              /\ UNCHANGED <<swapped, updating, rs, cnt, nr, parked, cset>>
+              /\ UNCHANGED <<swapped, updating, rs, cnt, nr, parked, cset, pre>>
 
 \* a pick that has not used the current picker must not be parked once the update has completed
 Stale(r) == Known(r) /\ swapped >= 1 /\ rs[r].last < swapped
 Parked == /\ Ev.ev = "parked" /\ parked' = parked \cup {Ev.r}
           /\ Mark(Ev.r \in cset, "I_Wake", l)
           /\ Mark(~updating /\ Stale(Ev.r), "I_Wake", l)
-          /\ UNCHANGED <<swapped, updating, rs, cnt, nr, cset>>
-Unblocked == /\ Ev.ev = "unblocked" /\ parked' = parked \ {Ev.r}
+          /\ UNCHANGED <<swapped, updating, rs, cnt, nr, cset, pre>>
+Unblocked == /\ Ev.ev = "unblocked" /\ parked' = parked \ {Ev.r} /\ pre' = pre \ {Ev.r}
              /\ rs' = IF Known(Ev.r) THEN Upd(rs, Ev.r, [rs[Ev.r] EXCEPT !.floor = MaxOf(@, swapped)]) ELSE rs
              /\ UNCHANGED <<swapped, updating, cnt, nr, cset>>
 
-UpdStart == /\ Ev.ev = "upd_start" /\ updating' = TRUE
+\* a publication by the LB policy (a call of updatePicker) starts: remember who is parked
+UpdStart == /\ Ev.ev = "upd_start" /\ updating' = TRUE /\ pre' = parked
             /\ UNCHANGED <<swapped, rs, cnt, nr, parked, cset>>
 Swapped == /\ Ev.ev = "swapped" /\ swapped' = Ev.g
-           /\ UNCHANGED <<updating, rs, cnt, nr, parked, cset>>
+           /\ UNCHANGED <<updating, rs, cnt, nr, parked, cset, pre>>
 \* a parked pick is woken by every picker update
 UpdEnd == /\ Ev.ev = "upd_end" /\ updating' = FALSE
           /\ Mark(\E r \in parked : Stale(r), "I_Wake", l)
-          /\ UNCHANGED <<swapped, rs, cnt, nr, parked, cset>>
+          \* every publication (whatever picker object it carries) wakes the picks that were parked before it
+          /\ Mark(pre \cap parked # {}, "I_Wake", l)
+          /\ UNCHANGED <<swapped, rs, cnt, nr, parked, cset, pre>>
 
 Panic == /\ Ev.ev = "panic" /\ Mark(TRUE, "I_NoPanic", l)
-         /\ UNCHANGED <<swapped, updating, rs, cnt, nr, parked, cset>>
+         /\ UNCHANGED <<swapped, updating, rs, cnt, nr, parked, cset, pre>>
 Other == /\ Ev.ev \in {"end", "note"}
-         /\ UNCHANGED <<swapped, updating, rs, cnt, nr, parked, cset>>
+         /\ UNCHANGED <<swapped, updating, rs, cnt, nr, parked, cset, pre>>
 
 Next == /\ l <= TLen /\ l' = l + 1 /\ Consumed(l)
         /\ (Reset \/ PickStart \/ PickerCall \/ At \/ ScNrEnd \/ ScRBegin \/ Done \/ PickRet \/ Cancel \/ CancelDone
